@@ -328,8 +328,20 @@ def bounded_umis_native():
         cs = rng.randrange(1, 8)
         rots = np.asarray(symmetry.rotations(cs))
         U1 = np.array(random_rotation(rng))
-        kind = rng.randrange(5)
+        kind = rng.randrange(6)
         k = rng.randrange(len(rots))
+        cubic = np.asarray(symmetry.rotations(7))
+        if kind == 5:
+            # orientations that are exactly integral, typed as integers (axis permutations written as literals)
+            U1i = np.round(cubic[rng.randrange(24)]).astype(int)
+            U2i = np.round(cubic[rng.randrange(24)]).astype(int)
+            ti = np.asarray(symmetry.Umis(U1i, U2i, cs), float)
+            tf = np.asarray(symmetry.Umis(U1i.astype(float), U2i.astype(float), cs), float)
+            if ti.shape != tf.shape or not np.allclose(ti, tf, atol=1e-6, equal_nan=False):
+                return {'crystal_system': cs, 'U1': U1i.tolist(), 'U2': U2i.tolist(), 'case': 'integer dtype',
+                        'problem': 'Umis of integer-typed orientation matrices differs from the same matrices as floats',
+                        'angles_int': ti[:, 1].tolist() if ti.ndim == 2 else None, 'angles_float': tf[:, 1].tolist()}
+            U1, kind = U1i.astype(float), 3
         if kind == 0:
             U2 = U1.copy()
         elif kind == 1:
@@ -361,7 +373,7 @@ def bounded_umis_native():
                 if o.shape != t.shape or not np.all(np.isfinite(o)) or np.abs(np.sort(o[:, 1]) - ref).max() > 1e-4:
                     bad['multiset_changes_under_' + nm] = True
         if bad:
-            bad.update({'crystal_system': cs, 'U1': U1.tolist(), 'U2': U2.tolist(), 'case': ['identical', 'equivalent', 'half_turn', 'random', 'random'][kind]})
+            bad.update({'crystal_system': cs, 'U1': U1.tolist(), 'U2': U2.tolist(), 'case': ['identical', 'equivalent', 'half_turn', 'random', 'random', 'integer'][kind]})
             return bad
     return f
 
